@@ -1299,7 +1299,8 @@ class Router(NetworkNode, discriminator="router"):
         More information in user guide and docstring for SimComponent._init_request_manager.
         """
         rm = super()._init_request_manager()
-        rm.add_request("acl", RequestType(func=self.acl._request_manager))
+        # like every other route of a node, the ACL is only served while the router is switched on
+        rm.add_request("acl", RequestType(func=self.acl._request_manager, validator=self._NodeIsOnValidator(node=self)))
         return rm
 
     def ip_is_router_interface(self, ip_address: IPv4Address, enabled_only: bool = False) -> bool:
